@@ -79,6 +79,16 @@ fn check(base: &str, imports: &[&str], include: Option<&str>, script: Option<&st
     if let Some(s) = script {
         let t = ref_resolve(base, strip_once(s, ".wxs"));
         if !code.contains(&format!("R[\"{}\"]", t)) && !code.contains(&format!("(\"{}\")", t)) { return Some((format!("generated code does not link the script to \"{}\": {}", t, code.chars().take(300).collect::<String>()), "that key".into())); }
+        // registration side (seed C13-17): a script is registered under EXACTLY the path it is added with -- the optional
+        // suffix belongs to the reference, not to the registered path; `t` and `t.wxs` are two scripts
+        let t2 = format!("{}.wxs", t);
+        g.add_script(&t, "exports.k = 1");
+        g.add_script(&t2, "exports.k = 2");
+        let a = g.get_script(&t).ok().map(|x| x.to_string());
+        let b = g.get_script(&t2).ok().map(|x| x.to_string());
+        if a.as_deref() != Some("exports.k = 1") || b.as_deref() != Some("exports.k = 2") {
+            return Some((format!("scripts added as {:?} and {:?} read back as {:?} and {:?}", t, t2, a, b), "each script under exactly the path it was added with".into()));
+        }
     }
     None
 }
